@@ -15,6 +15,7 @@ import (
 	"regexp"
 	"sort"
 	"strings"
+	"time"
 
 	"github.com/wader/fq/internal/verif/core"
 	"github.com/wader/gojq"
@@ -73,7 +74,7 @@ func run(r *core.Run) {
 
 var l1PoolText = []string{
 	`null`, `true`, `false`, `0`, `-1`, `1.5`, `9007199254740993`, `18446744073709551616`,
-	`1000000000000000000000000000000`, `""`, `"a,b"`, `"é€😀"`, `[]`, `[1,[2]]`, `{}`,
+	`1000000000000000000000000000000`, `""`, `"a,b"`, `"é€😀"`, `"[1,{\"a\":-2}]"`, `[]`, `[1,[2]]`, `{}`,
 	`{"a":{"b":1},"c":[1,"x"]}`,
 }
 
@@ -386,6 +387,8 @@ func (d *differ) compareBatch(progs []string, inputs []any, validate bool) {
 		refs []Obs
 	}
 	var ok []compiled
+	t0 := time.Now()
+	defer func() { r.Count("ms_total_in_compare", time.Since(t0).Milliseconds()) }()
 	for _, p := range progs {
 		code, err := refCompile(p)
 		if err != nil {
@@ -427,9 +430,12 @@ func (d *differ) compareBatch(progs []string, inputs []any, validate bool) {
 	for i, c := range ok {
 		texts[i] = c.text
 	}
+	r.Count("ms_reference", time.Since(t0).Milliseconds())
+	t1 := time.Now()
 	r.StepBegin(d.section+":batch", "fq evaluating a batch starting with "+texts[0], Case{Section: d.section, Program: texts[0], Input: "null"})
 	obs, err := d.fq.runBatch(texts, inputs)
 	r.StepEnd()
+	r.Count("ms_fq_batches", time.Since(t1).Milliseconds())
 	batched := err == nil
 	if !batched {
 		// some program broke the whole batch (fq compile error, uncatchable error such
@@ -459,6 +465,9 @@ func (d *differ) compareBatch(progs []string, inputs []any, validate bool) {
 		}
 	}
 	if len(vars) > 0 {
+		t2 := time.Now()
+		defer func() { r.Count("ms_classification_and_confirmation", time.Since(t2).Milliseconds()) }()
+		r.Count("second_stage_batches", 1)
 		texts := make([]string, len(vars))
 		for k := range vars {
 			texts[k] = vars[k].fqText
